@@ -7,6 +7,7 @@ import Proofs.C10NtsSpec
 import Proofs.C10SpecDedup
 import Proofs.C10NtsLookup
 import Proofs.C10Ring
+import Proofs.C10Strategy
 /-!
 # C10 — replica sets for a token equal Cassandra's placement  (property theorems)
 
@@ -22,7 +23,7 @@ any number of tokens per node, datacenters, racks, replication factors incl. 0 /
 to the ring.  The old failing inputs are kept as regression `example`s at the end.
 -/
 namespace C10
-open Placement C10Lookup C10Simple C10Nts C10NtsNodup C10NtsSpec C10SpecDedup C10NtsLookup C10Ring
+open Placement C10Lookup C10Simple C10Nts C10NtsNodup C10NtsSpec C10SpecDedup C10NtsLookup C10Ring C10Strategy
 
 /-! ## ring lookup -/
 
@@ -458,6 +459,48 @@ theorem C10_cluster_nts (hosts : List (Host × List Int)) (hd : DistinctTokens h
 
 example : (replicasFor (simpleReplicaMap 2 (buildRing [(⟨2, 1, 1⟩, [10, -5]), (⟨1, 1, 2⟩, [3])])) 4).map (·.2)
     = some [⟨2, 1, 1⟩, ⟨1, 1, 2⟩] := by decide
+
+/-! ## keyspace replication options: `getStrategy` / `getReplicationFactorFromOpts` for EVERY option map -/
+
+/-- `C10_strategy` (op `sstrategy`): for every strategy class Cassandra ships (with or without the package prefix) and
+EVERY option map — any keys, values of any dynamic type, any text — `getStrategy` returns what the replication setting
+means (`Spec.strategy`): SimpleStrategy with the number `replication_factor` denotes (positional decimal value, optional
+sign, int64 range; no strategy when it denotes none), NetworkTopologyStrategy with exactly the datacenters whose value
+denotes a number (the `class` key and unreadable values left out), no strategy for LocalStrategy. -/
+theorem C10_strategy (cls : List Char) (opts : List (List Char × OptVal)) (s : Strategy)
+    (h : Spec.strategy cls opts = some s) : getStrategy cls opts = s :=
+  getStrategy_eq cls opts s h
+
+/-- the replication factor as Cassandra renders it (`Integer.toString`, here `Nat.repr`) — for EVERY number up to the
+largest 64-bit int — and as an int value is read back as that number -/
+theorem C10_rf_rendering (n : Nat) (h : n < 2 ^ 63) :
+    rfFromOpt (.str (Nat.repr n).toList) = some n ∧ rfFromOpt (.int n) = some n := by
+  constructor
+  · rw [rfFromOpt_eq]; exact rfOfOpt_repr n h
+  · simp [rfFromOpt]
+
+example : rfFromOpt (.str "3".toList) = some 3 ∧ rfFromOpt (.str "3/1".toList) = none ∧
+    rfFromOpt (.str "-0".toList) = some 0 ∧ rfFromOpt (.str "9223372036854775808".toList) = none := by decide
+
+/-- `C10_strategy_nts_map`: the NetworkTopologyStrategy a keyspace's options give, as a FUNCTION datacenter ↦ rf —
+independent of the order in which Go iterates over the option map: for every option map (keys distinct), the
+datacenter map has distinct keys (the hypothesis `hkeys` of the placement theorems) and maps `dc` to the number the
+option `dc` denotes; `class`, absent options and options denoting no number are not in it. -/
+theorem C10_strategy_nts_map (cls : List Char) (opts : List (List Char × OptVal))
+    (hc : Spec.classKind cls = some .nts) (hnd : (opts.map (·.1)).Nodup) :
+    ∃ dcs, getStrategy cls opts = .nts dcs ∧ (dcs.map (·.1)).Nodup ∧
+      ∀ dc, dcs.lookup dc = if dc = "class".toList then none else (opts.lookup dc).bind Spec.rfOfOpt := by
+  refine ⟨_, getStrategy_eq cls opts _ (by unfold Spec.strategy; rw [hc]), ?_, ?_⟩
+  · exact List.Sublist.nodup ((keys_filterMap_sublist Spec.rfOfOpt _).trans (List.filter_sublist.map _)) hnd
+  · intro dc
+    have hnd' : ((opts.filter (fun kv => kv.1 ≠ "class".toList)).map (·.1)).Nodup :=
+      List.Sublist.nodup (List.filter_sublist.map _) hnd
+    rw [lookup_filterMap_keys Spec.rfOfOpt _ hnd' dc, lookup_filter_key]
+    split <;> rfl
+
+example : getStrategy "org.apache.cassandra.locator.NetworkTopologyStrategy".toList
+    [("class".toList, .str "x".toList), ("dc1".toList, .str "3".toList), ("dc2".toList, .int 2),
+     ("dc3".toList, .str "3/1".toList)] matches .nts [(_, 3), (_, 2)] := by decide
 
 /-! ## regression: the inputs of the repaired findings -/
 
